@@ -185,6 +185,25 @@ def _nrep_list(nenv, x):
     return list(x) if isinstance(x, list) else [int(x)] * nenv
 
 
+def _layout_asis(case):
+    """replicate counts per environment as the CODE uses them: the array stored at construction, zipped with
+    range(nenv) where nenv may have been re-assigned afterwards"""
+    base = _nrep_list(case["nenv"], case["nrep"])
+    after = case.get("nenv_after")
+    return base if after is None else base[:after]
+
+
+def _layout_spec(case):
+    """replicate counts per environment that the configuration asks for: `nenv_after` environments (when re-assigned);
+    a scalar `nrep` means that many replicates in EVERY environment"""
+    after = case.get("nenv_after")
+    if after is None:
+        return _nrep_list(case["nenv"], case["nrep"])
+    if isinstance(case["nrep"], list):
+        return list(case["nrep"])[:after]           # only generated for after <= nenv
+    return [int(case["nrep"])] * after
+
+
 def _cell(v):
     """one label cell of a data frame -> JSON (None / NaN -> None)"""
     if v is None:
@@ -251,7 +270,9 @@ class C14(Prop):
             "None/scalar/array/zero, draws scripted (dyadic), genuine (recorded) or all-zero variance; h2: targets in (0,1] "
             "scalar or per trait incl. 1, traits with var_A = 0; meanbv: hand-built tables with shuffled rows, unsorted "
             "labels, duplicate names inside one group, taxa absent from the table and taxa absent from the genotype "
-            "matrix, trait columns reordered, estimated as is / rows permuted / genotype taxa permuted; pipeline: real "
+            "matrix, trait columns reordered, 25 % with NaN cells (incl. a taxon without any value for a trait), estimated as "
+            "is / rows permuted / genotype taxa permuted; thorough tier: exhaustive enumeration of all tables of 1-4 records "
+            "over 2 names x 2 groups against all genotype lists of 1-3 entries (27 200 cases); pipeline: real "
             "phenotype() output into real estimate(); stat: 2000-3000 records with a genuine generator.  Non-trivial = "
             "pheno with >= 2 taxa and >= 2 (env,rep) cells and names not in sorted order; h2 with var_A > 0 and target "
             "< 1; meanbv with a taxon having >= 2 records and genotype order different from group-by order")
@@ -260,8 +281,9 @@ class C14(Prop):
         "'one row per distinct key, per-column arithmetic mean, rows with a missing key dropped' (re-checked on every "
         "case by the Spec oracle on the implementation's output)",
         "numpy Generator.multivariate_normal delivers independent N(mean, cov) variates (the covariance arguments the "
-        "code passes are recorded and compared with diag(var_*) on every case; the limit statement itself is only "
-        "tested statistically in the `stat` stream)",
+        "code passes are recorded and compared with diag(var_*) on every case; given that contract the almost-sure limit "
+        "of the realised error variance is PROVED (realised_error_variance_converges_to_requested), the replicate / "
+        "environment limits up to mean-error terms; the `stat` stream tests the same statistically on the real code)",
         "the genomic model's gegv()/var_A()/var_G() (C04) are observed, not modelled, apart from the additive closed form "
         "Z u + location used to cross-check the observed true values",
         "BreedingValueMatrix.from_numpy / unscale round trip (C15): outputs are read through unscale() with 1e-9 tolerance",
@@ -269,9 +291,12 @@ class C14(Prop):
     ASSUMPTIONS = [
         "taxon identity = taxon name: a name that occurs under two different group labels while taxa_grp_col is set is "
         "outside the valid inputs (the code then returns the mean of the last group only; never generated)",
-        "nrep has one entry per environment (guaranteed by the constructor; reassigning `nenv` afterwards does not "
-        "re-broadcast `nrep` and the zip of l.415 then truncates - reported as an observation, not generated)",
-        "phenotype values are finite (pandas' mean skips NaN; not modelled)",
+        "configurations are built by the constructor and, in 12 % of the `real` pheno cases, `nenv` is re-assigned through "
+        "its public setter afterwards: fewer environments with any nrep (the zip truncates - valid), more environments with "
+        "a scalar nrep (every environment is owed that many replicates - finding D60); raising nenv over a non-constant "
+        "nrep array has no defined meaning and is not generated",
+        "phenotype tables may hold NaN cells: the model follows pandas' skip-NaN group mean (`meanBVNan`); the Spec accepts "
+        "skip-NaN mean or missing where only some records of a taxon lack the value (the property does not say)",
         "math.ceil(math.log10(n)) is the least k with n <= 10**k (exercised at n = 1, 9, 10, 11, 101)",
         "float arithmetic: inputs are small integers / dyadic rationals so sums are exact; comparisons use rel 1e-9",
     ]
@@ -302,12 +327,24 @@ class C14(Prop):
             {"kind": "pheno", "pop": {"geno": [[[1]], [[0]]], "taxa": ["solo"], "grp": None, "trait": ["t"],
                                       "beta": [[0]], "u": [[3]]},
              "nenv": 1, "nrep": 1, "var_env": None, "var_rep": None, "var_err": None, "mode": "zero", "seed": 1},
+            # D60: nenv raised through its setter after construction with a scalar nrep
+            {"kind": "pheno", "pop": pop3, "nenv": 2, "nrep": 1, "nenv_after": 4, "var_env": 1, "var_rep": 1, "var_err": 1,
+             "mode": "real", "seed": 7},
+            {"kind": "pheno", "pop": pop3, "nenv": 3, "nrep": [2, 1, 2], "nenv_after": 2, "var_env": 1, "var_rep": 1,
+             "var_err": 1, "mode": "real", "seed": 8},
             {"kind": "h2", "pop": pop3, "which": "h2", "h2": "1/2"},
             {"kind": "h2", "pop": pop3, "which": "H2", "h2": [1, "1/4"]},
             {"kind": "h2", "pop": dict(pop3, u=[[1, 0], [3, 0], [-1, 0]]), "which": "h2", "h2": "3/4"},
             {"kind": "meanbv", "table": table, "taxa_col": "taxa", "grp_col": "taxa_grp", "trait_cols": ["y2", "y1"],
              "gt": {"taxa": ["c", "zz", "a", "b"], "grp": [7, 8, 9, 6]}, "row_perm": [5, 3, 1, 0, 4, 2],
              "gt_perm": [2, 0, 3, 1]},
+            {"kind": "meanbv", "table": dict(table, vals=[[1, None], [None, 20], [4, None], [None, None], [3, 30], [7, None]]),
+             "taxa_col": "taxa", "grp_col": "taxa_grp", "trait_cols": ["y2", "y1"],
+             "gt": {"taxa": ["c", "zz", "a", "b"], "grp": [7, 8, 9, 6]}, "row_perm": [5, 3, 1, 0, 4, 2],
+             "gt_perm": [2, 0, 3, 1]},
+            {"kind": "meanbv", "table": dict(table, vals=[[1, None], [None, 20], [4, None], [None, None], [3, 30], [7, None]]),
+             "taxa_col": "taxa", "grp_col": None, "trait_cols": ["y1", "y2"], "gt": None,
+             "row_perm": [5, 3, 1, 0, 4, 2], "gt_perm": None},
             {"kind": "meanbv", "table": table, "taxa_col": "taxa", "grp_col": None, "trait_cols": ["y1"],
              "gt": None, "row_perm": [1, 0, 2, 5, 4, 3], "gt_perm": None},
             # D18: population without groups, estimator told to group by the (all-missing) taxa_grp column
@@ -387,6 +424,12 @@ class C14(Prop):
         if mode == "real":
             case["seed"] = rng.randrange(2 ** 31)
             case["legacy_rng"] = rng.random() < 0.3
+            if rng.random() < 0.12:        # `nenv` re-assigned through its setter after construction
+                if isinstance(nrep, list):
+                    if nenv > 1:
+                        case["nenv_after"] = rng.randint(1, nenv - 1)       # fewer environments: the zip truncates
+                else:
+                    case["nenv_after"] = rng.choice([max(1, nenv - 1), nenv + 1, nenv + 2])
             return case
         ve, vr, vx = (_var_vec(case[k], t) for k in ("var_env", "var_rep", "var_err"))
 
@@ -426,6 +469,16 @@ class C14(Prop):
                 env.append(k + 1)
                 rep.append(1)
                 vals.append([canon.enc(Fraction(rng.randint(-40, 40), rng.choice([1, 2, 4]))) for _ in range(ncol)])
+        if rng.random() < 0.25:        # missing phenotype values (NaN cells); pandas' mean skips them
+            for row in vals:
+                for j in range(ncol):
+                    if rng.random() < 0.3:
+                        row[j] = None
+            if rng.random() < 0.5:     # a taxon without any value for one trait
+                nm, j = rng.choice(table_names), rng.randrange(ncol)
+                for row, who in zip(vals, taxa):
+                    if who == nm:
+                        row[j] = None
         order = list(range(len(taxa)))
         rng.shuffle(order)
         taxa, grp, env, rep, vals = ([x[i] for i in order] for x in (taxa, grp, env, rep, vals))
@@ -516,6 +569,35 @@ class C14(Prop):
                 out.append(self._gen_stat(rng))
         return out
 
+    # ================================================================================ exhaustive small scope
+    def exhaustive(self, tier):
+        """thorough tier: EVERY phenotype table of 1-4 records over 2 names x 2 groups (record i carries the value 2**i, so a
+        mean identifies the set of records it was taken over), estimated without and with the group column, against EVERY
+        genotype list of 1-3 entries over {a, b, c} (c never phenotyped) and against no genotype matrix: 27 200 cases.
+        With the group column, tables in which one name occurs under both groups are outside the valid inputs (taxon
+        identity = name); they are kept as correspondence-only cases (the model's last-group-wins join against the code)."""
+        if tier != "thorough":
+            return None
+        import itertools
+        keys = [(nm, g) for nm in ("a", "b") for g in (1, 2)]
+        gts = [list(x) for k in (1, 2, 3) for x in itertools.product("abc", repeat=k)] + [None]
+        out = []
+        for nrec in (1, 2, 3, 4):
+            for recs in itertools.product(keys, repeat=nrec):
+                table = {"taxa": [r[0] for r in recs], "grp": [r[1] for r in recs], "env": list(range(1, nrec + 1)),
+                         "rep": [1] * nrec, "cols": ["y"], "vals": [[2 ** i] for i in range(nrec)]}
+                functional = all(len({g for nm2, g in recs if nm2 == nm}) <= 1 for nm in ("a", "b"))
+                for grp_col in (None, "taxa_grp"):
+                    for gt in gts:
+                        c = {"kind": "meanbv", "table": table, "taxa_col": "taxa", "grp_col": grp_col, "trait_cols": ["y"],
+                             "gt": None if gt is None else {"taxa": gt, "grp": None},
+                             "gt_perm": None if gt is None else list(range(1, len(gt))) + [0],
+                             "row_perm": list(range(nrec))[::-1], "_exhaustive": True}
+                        if grp_col is not None and not functional:
+                            c["corr_only"] = True
+                        out.append(c)
+        return out
+
     # ================================================================================ implementation
     def _protocol(self, m, case, gm, rng_obj):
         t = self._t(case["pop"])
@@ -539,6 +621,8 @@ class C14(Prop):
             else:
                 g = _Recording(case["seed"])
             pt = self._protocol(m, case, gm, g)
+            if case.get("nenv_after") is not None:
+                pt.nenv = int(case["nenv_after"])         # public setter, after construction
             geno0 = pg.mat.copy()
             df = pt.phenotype(pg)
             gv = gm.gegv(pg).unscale()
@@ -615,7 +699,8 @@ class C14(Prop):
         d["env"] = numpy.array([table["env"][i] for i in idx], dtype=int)
         d["rep"] = numpy.array([table["rep"][i] for i in idx], dtype=int)
         for j, c in enumerate(table["cols"]):
-            d[c] = numpy.array([_f(table["vals"][i][j]) for i in idx], dtype=float)
+            d[c] = numpy.array([float("nan") if table["vals"][i][j] is None else _f(table["vals"][i][j]) for i in idx],
+                               dtype=float)
         return pandas.DataFrame(d)
 
     def _gt(self, m, gt, order=None):
@@ -690,9 +775,10 @@ class C14(Prop):
             zero = all(all(v == 0 for v in _var_vec(case.get(kk), t)) for kk in ("var_env", "var_rep", "var_err"))
             base = {"gv": obs["gv"], "taxa": pop["taxa"], "grp": pop["grp"], "trait": pop["trait"], "ntrait": t}
             return [
-                {"op": "c14.phenotype", **base, "nenv": case["nenv"], "nrep": case["nrep"], "draws": obs["draws"]},
+                {"op": "c14.phenotype", **base, "nenv": case["nenv"], "nrep": case["nrep"], "draws": obs["draws"],
+                 "nenvAfter": case.get("nenv_after")},
                 {"op": "c14.spec_pheno", "gv": obs["gv"], "taxa": pop["taxa"], "grp": pop["grp"],
-                 "nrep": _nrep_list(case["nenv"], case["nrep"]), "zeroNoise": zero, "rows": obs["rows"]},
+                 "nrep": _layout_spec(case), "zeroNoise": zero, "rows": obs["rows"]},
                 {"op": "c14.truepheno", **base},
                 # TruePhenotyping = a noiseless trial with one environment and one replicate
                 {"op": "c14.spec_pheno", "gv": obs["gv"], "taxa": pop["taxa"], "grp": pop["grp"], "nrep": [1],
@@ -710,11 +796,13 @@ class C14(Prop):
             use = case["grp_col"] is not None
             recs = self._table_recs(case["table"], tc)
             gt = case.get("gt")
-            reqs = [{"op": "c14.meanbv", "recs": recs, "useGrp": use, "ntrait": len(tc),
+            # a table with missing cells (NaN) goes through the NaN-aware model / Spec ops
+            sfx = "_nan" if any(v is None for r in recs for v in r["vals"]) else ""
+            reqs = [{"op": "c14.meanbv" + sfx, "recs": recs, "useGrp": use, "ntrait": len(tc),
                      "gtTaxa": None if gt is None else gt["taxa"]}]
             if gt is None:
                 for key in ("base", "rowperm"):
-                    reqs.append({"op": "c14.spec_meanbv_nogt", "recs": recs, "ntrait": len(tc),
+                    reqs.append({"op": "c14.spec_meanbv" + sfx + "_nogt", "recs": recs, "ntrait": len(tc),
                                  "outTaxa": obs[key]["taxa"], "outRows": obs[key]["rows"]})
                 return reqs
 
@@ -722,7 +810,7 @@ class C14(Prop):
                 tx = gt["taxa"] if order is None else [gt["taxa"][i] for i in order]
                 gg = gt.get("grp")
                 gg = gg if (gg is None or order is None) else [gg[i] for i in order]
-                return {"op": "c14.spec_meanbv", "recs": recs, "ntrait": len(tc), "gtTaxa": tx, "gtGrp": gg,
+                return {"op": "c14.spec_meanbv" + sfx, "recs": recs, "ntrait": len(tc), "gtTaxa": tx, "gtGrp": gg,
                         "traits": tc, "outTaxa": o["taxa"], "outGrp": o["grp"], "outTrait": o["trait"],
                         "outRows": o["rows"]}
             reqs.append(spec(obs["base"], None))
@@ -758,7 +846,7 @@ class C14(Prop):
         (n,t) draw with diag(var_err); all means zero"""
         ve, vr, vx = (_var_vec(case.get(kk), t) for kk in ("var_env", "var_rep", "var_err"))
         want = []
-        for k in _nrep_list(case["nenv"], case["nrep"]):
+        for k in _layout_asis(case):
             want.append((ve, None))
             for _ in range(k):
                 want.append((vr, None))
@@ -855,7 +943,7 @@ class C14(Prop):
             _rows_close(tb["rows"], canon.enc(_gv_exact(pop, dominance=False))) \
             and (pop["trait"] is None or tb["trait"] == pop["trait"])
         spec = bool(sp["ok"]) and bool(tsp["ok"]) and tbv_ok
-        ncell = sum(_nrep_list(case["nenv"], case["nrep"]))
+        ncell = sum(_layout_asis(case))
         nontriv = n >= 2 and ncell >= 2 and (pop["taxa"] is None or pop["taxa"] != sorted(pop["taxa"]))
         return {"corr": corr, "spec": spec, "nontrivial": nontriv,
                 "detail": f"pheno[{case['mode']}] spec: {sp['detail']}; true-pheno: {tsp['detail']}; {cov_msg}; "
@@ -876,7 +964,8 @@ class C14(Prop):
         gt = case.get("gt")
         base, rp = obs["base"], obs["rowperm"]
         if gt is None:
-            corr = mdl["taxa"] == base["taxa"] and mdl["grp"] == base["grp"] and _rows_close(mdl["rows"], base["rows"])
+            corr = mdl["taxa"] == base["taxa"] and mdl.get("grp", base["grp"]) == base["grp"] and \
+                _rows_close(mdl["rows"], base["rows"])
             inv = base["taxa"] == rp["taxa"] and base["grp"] == rp["grp"] and _rows_close(base["rows"], rp["rows"])
             gtinv = True
         else:
@@ -890,6 +979,8 @@ class C14(Prop):
                 gtinv = gp["taxa"] == [base["taxa"][i] for i in perm] and _rows_close(
                     gp["rows"], [base["rows"][i] for i in perm])
         spec = all(bool(s["ok"]) for s in specs) and inv and gtinv
+        if case.get("corr_only"):        # one name under two groups with the group column in use: outside the valid inputs
+            spec = True
         corr = corr and obs["input_untouched"]
         tab = case["table"]
         counts = {}
@@ -925,6 +1016,10 @@ class C14(Prop):
     # ================================================================================ findings / shrinking
     def signature(self, case, obs, verdict):
         sig = {"kind": case["kind"]}
+        if case["kind"] == "pheno" and case.get("nenv_after") is not None:
+            sig["site"] = "G_E_Phenotyping.nenv"
+            if case["nenv_after"] > case["nenv"] and not isinstance(case["nrep"], list):
+                sig["cond"] = "nenv_increased_after_construction"
         if case["kind"] == "meanbv":
             sig["site"] = SITE_EST
             if case.get("grp_col") is not None and case["table"].get("grp") is None:
@@ -1146,6 +1241,9 @@ class C14(Prop):
             with patch(pandas.DataFrame, "groupby", gb):
                 return est0(self, ptobj, gtobj, miscout, **kw)
 
+        def nan_as_zero(self, ptobj, gtobj=None, miscout=None, **kw):   # missing cells counted as observations of 0
+            return est0(self, ptobj.fillna({c: 0.0 for c in self.trait_cols}), gtobj, miscout, **kw)
+
         def labels_from_table(self, ptobj, gtobj=None, miscout=None, **kw):   # taxa labels in sorted order, data in gt order
             out = est0(self, ptobj, gtobj, miscout, **kw)
             if gtobj is None:
@@ -1185,6 +1283,7 @@ class C14(Prop):
             ("estimate_median", lambda: patch(MBV, "estimate", median_not_mean)),
             ("estimate_first_record", lambda: patch(MBV, "estimate", first_record_only)),
             ("estimate_labels_sorted", lambda: patch(MBV, "estimate", labels_from_table)),
+            ("estimate_nan_cells_as_zero", lambda: patch(MBV, "estimate", nan_as_zero)),
             ("truepheno_labels_rolled", lambda: patch(TP, "phenotype", true_rolled)),
             ("truebv_sorted_rows", lambda: patch(TBV, "estimate", truebv_sorted)),
         ]
